@@ -13,6 +13,7 @@
    isoformat/isoparse - the JSON statements take it as the argument [cal]. *)
 From BP Require Import Base.Prelude Model.Varint Model.Scalar Model.Time Spec.Varint Spec.Time.
 From BP Require Import Proofs.TimeP.
+From BP Require Model.Types gen.Tables.
 
 (* ------------------------------------------------------------------------------------------ *)
 (* Timestamp                                                                                    *)
@@ -124,6 +125,16 @@ Print Assumptions C15_dur_wire_any_writer.
 (* ------------------------------------------------------------------------------------------ *)
 (* the two-field message on the wire                                                            *)
 (* ------------------------------------------------------------------------------------------ *)
+(* T1: the field layout the model hard-wires (seconds = 1 : int64, nanos = 2 : int32) is the one of
+   the bundled Timestamp / Duration classes of the live tree (regenerated table; finite) *)
+Theorem C15_field_layout :
+  map (fun x => (snd (fst x), snd x)) Tables.timestamp_fields = [(1, Types.TInt64); (2, Types.TInt32)] /\
+  map (fun x => (snd (fst x), snd x)) Tables.duration_fields = [(1, Types.TInt64); (2, Types.TInt32)] /\
+  Types.tmem Types.TInt64 Tables.WIRE_VARINT_TYPES = true /\ Types.tmem Types.TInt32 Tables.WIRE_VARINT_TYPES = true /\
+  Types.tmem Types.TMessage Tables.WIRE_LEN_DELIM_TYPES = true.
+Proof. vm_compute. repeat split. Qed.
+Print Assumptions C15_field_layout.
+
 (* encoder meets the proto3 wire specification (zero fields omitted, negatives as 64-bit two's
    complement), decoder inverts it, at most 22 bytes *)
 Theorem C15_pair_wire : forall s n, - 2 ^ 63 <= s < 2 ^ 63 -> - 2 ^ 31 <= n < 2 ^ 31 ->
